@@ -11,8 +11,14 @@ structure Status where
   max      : Int := 0
 deriving DecidableEq, Repr, Inhabited
 
-/-- `recalculateReplicationMax(arg)` with `len = OpLog().Len()` -/
+/-- `recalculateReplicationMax(arg)` with `len = OpLog().Len()`: the largest of the argument, the
+log length and the recorded maximum (after the `fix:` commit; see `recalcMaxPinned`). -/
 def recalcMax (len : Int) (s : Status) (arg : Int) : Status :=
+  let m := if len > arg then len else arg
+  { s with max := if s.max > m then s.max else m }
+
+/-- the pinned tree's version (finding F15): the recorded maximum is ignored whenever `len > arg` -/
+def recalcMaxPinned (len : Int) (s : Status) (arg : Int) : Status :=
   { s with max := if len > arg then len else if s.max > arg then s.max else arg }
 
 /-- `recalculateReplicationProgress()` -/
